@@ -102,8 +102,10 @@ class RegularExpressionConversion:
         self._rx = re.compile(regex)
 
     def __call__(self, value):
-        m = self._rx.match(value)
-        if m and m.group() == value:
+        # the whole value must match; with alternatives, match() would stop
+        # at the first one matching a prefix ("fe80" of "fe80::1")
+        m = self._rx.fullmatch(value)
+        if m:
             return value
         else:
             raise ValueError(f"{self.reason}: {repr(value)}")
